@@ -135,6 +135,26 @@ template <class S> static void explore(const std::string& sol, const std::vector
     }
     R.apply(base, 0, 0, cb0);
   }
+  // (g) evaluation-before-purge differential: handle A = [init; all evaluators; purge; k parameter writes; all evaluators], handle B = the same
+  // without the first evaluation.  Same parameters, same point: the bits must agree for every k = 1 .. 2n+2 (the writes cycle through the
+  // parameters, so every small modification count occurs) -- whatever an evaluation remembered before the purge must not survive it.
+  if (!getenv("O2_SELECTION_ONLY") && n > 4) {
+    LD cg[4]; for (int k = 0; k < 4; k++) cg[k] = R.c0[k];
+    int kmax = std::min(2 * n + 2, tier ? 500 : 120);
+    for (int k = 1; k <= kmax; k++) {
+      std::string hb[2];
+      for (int variant = 0; variant < 2; variant++) {
+        std::string h = std::string(variant ? "gB" : "gA"); capture([&] { masa_init<S>(h, sol); });
+        if (variant == 0) R.eval_all(cg);
+        masa_purge_default_param<S>();
+        for (int q = 0; q < k; q++) { int i = q % n; masa_set_param<S>(R.names[i], (S)(R.base[i] * (1.0L + (q / n + 1) * 0.015625L))); }
+        hb[variant] = R.eval_all(cg);
+      }
+      hist++;
+      for (size_t q = 0; q < R.ev.size(); q++) if (hb[0].compare(q * w0, w0, hb[1], q * w0, w0) != 0 && viol < 40) { viol++; fprintf(out, "V\t%s\t%s\t%s/%s\tafter [init, purge, %d parameter writes] the value depends on whether the evaluators had been called before the purge\n", sol.c_str(), scal, R.ev[q]->name, R.ev[q]->sig, k); }
+    }
+    capture([&] { masa_select_mms<S>("o2"); }); R.cur.assign(n, NAN);
+  }
   if (getenv("O2_SELECTION_ONLY")) targets.clear();  // C12 runs part (e) only
   for (auto& e : targets) {
     LD c[4], cz[4], cb[4];
